@@ -103,7 +103,8 @@ var alsoViolates = map[string][][2]string{
 	"C13/not-restored":                {{"C01", "lost-by-seek"}},
 	"C13/snapshot-later-not-restored": {{"C01", "lost-by-seek"}},
 	"C13/restore-times":               {{"C14", "retention-not-restarted"}},
-	"C13/seek-revived-expired":        {{"C14", "revived-after-retention"}}, // deliverable for exactly its retention
+	"C13/seek-revived-expired":        {{"C14", "revived-after-retention"}},   // deliverable for exactly its retention
+	"C14/ttl-update-clock":            {{"C15", "live-subscription-expired"}}, // the expiry job then removes a live subscription
 	"C13/row-lost":                    {{"C01", "lost"}},
 	"C06/forward-missing":             {{"C01", "forward-missing"}},
 	"C06/forward-filter":              {{"C02", "forward-filter"}, {"C07", "forward-filter"}},
@@ -916,13 +917,20 @@ func (m *Monitors) Observe(idx int, r *Result) {
 						m.policy[s.ID] = pol
 					}
 				}
-				if pth != "expiration_policy" || op.Rpc.Sub.Expiration == nil || *op.Rpc.Sub.Expiration <= 0 {
+				if pth != "expiration_policy" {
+					continue
+				}
+				// an absent policy (or a zero TTL) means the default of 30 days
+				ttl := int64(30 * 24 * time.Hour)
+				if op.Rpc.Sub.Expiration != nil && *op.Rpc.Sub.Expiration > 0 {
+					ttl = *op.Rpc.Sub.Expiration
+				} else if op.Rpc.Sub.Expiration != nil && *op.Rpc.Sub.Expiration < 0 {
 					continue
 				}
 				if s := liveSubByName(r.SubsAfter, op.Rpc.Sub.Name); s != nil {
 					m.lastPull[s.ID] = now
-					if ns(s.ExpiresAt) != now+*op.Rpc.Sub.Expiration {
-						m.fire("C14", "ttl-update-clock", "UpdateSubscription set the expiration TTL of %s to %d ns at t=%d; the subscription now expires at %d instead of %d", s.Name, *op.Rpc.Sub.Expiration, now, ns(s.ExpiresAt), now+*op.Rpc.Sub.Expiration)
+					if ns(s.ExpiresAt) != now+ttl {
+						m.fire("C14", "ttl-update-clock", "UpdateSubscription set the expiration TTL of %s to %d ns at t=%d; the subscription now expires at %d instead of %d", s.Name, ttl, now, ns(s.ExpiresAt), now+ttl)
 					}
 				}
 			}
